@@ -271,9 +271,32 @@ class RealB:
         return dask.bag.concat(bags)
 
     def executor(self, policy="fifo", isolated=False):
+        """real Dask, synchronous scheduler.  isolated=True: every task's function, inputs and
+        result take a cloudpickle round trip (what a distributed worker does to object identity)."""
         import dask
 
-        dask.config.set(scheduler="synchronous" if not isolated else self.scheduler)
+        dask.config.set(scheduler="synchronous")
+        if isolated and not getattr(self, "_orig_delayed", None):
+            import cloudpickle
+
+            orig = dask.delayed
+            self._orig_delayed = orig
+
+            def iso(f):
+                if not callable(f):
+                    return f
+
+                def run(*a, **k):
+                    ff, aa, kk = cloudpickle.loads(cloudpickle.dumps((f, a, k)))
+                    return cloudpickle.loads(cloudpickle.dumps(ff(*aa, **kk)))
+
+                run.__name__ = getattr(f, "__name__", "task")
+                return run
+
+            def delayed(obj, *a, **k):
+                return orig(iso(obj), *a, **k)
+
+            dask.delayed = delayed
 
     def h5path(self, name):
         if self._tmp is None:
@@ -286,6 +309,11 @@ class RealB:
         return h5py.File(path, mode)
 
     def cleanup(self):
+        if getattr(self, "_orig_delayed", None):
+            import dask
+
+            dask.delayed = self._orig_delayed
+            self._orig_delayed = None
         if self._tmp:
             import shutil
 
